@@ -118,3 +118,31 @@ func (in *Inotify) Drain() []InEvent {
 }
 
 func (in *Inotify) Close() { syscall.Close(in.fd) }
+
+// DiffEntry is one difference between two snapshots.
+type DiffEntry struct {
+	Kind   string // added | removed | changed
+	Path   string // relative path
+	Detail string
+}
+
+func (d DiffEntry) String() string { return fmt.Sprintf("%s %q %s", d.Kind, d.Path, d.Detail) }
+
+// DiffSnapEntries is DiffSnap with structured entries (paths may contain blanks, tabs or newlines).
+func DiffSnapEntries(a, b map[string]string) []DiffEntry {
+	var out []DiffEntry
+	for k, v := range a {
+		if w, ok := b[k]; !ok {
+			out = append(out, DiffEntry{"removed", k, v})
+		} else if w != v {
+			out = append(out, DiffEntry{"changed", k, v + " -> " + w})
+		}
+	}
+	for k, v := range b {
+		if _, ok := a[k]; !ok {
+			out = append(out, DiffEntry{"added", k, v})
+		}
+	}
+	sort.Slice(out, func(i, j int) bool { return out[i].Path+out[i].Kind < out[j].Path+out[j].Kind })
+	return out
+}
